@@ -105,7 +105,7 @@ var baseEnv = initBaseEnv(map[string]Extension{
 		EvalContextHandler: defaultContextHandler,
 	},
 	"pad": {
-		Func:               jlib.Pad,
+		Func:               pad,
 		UndefinedHandler:   defaultUndefinedHandler,
 		EvalContextHandler: contextHandlerPad,
 	},
@@ -461,6 +461,14 @@ func contextHandlerSubstringBeforeAfter(argv []reflect.Value) bool {
 	// one string argument, use the evaluation context as the first
 	// argument.
 	return len(argv) == 1 && jtypes.IsString(argv[0])
+}
+
+// pad calls jlib.Pad with a width that a string can have.
+func pad(s string, width int, chars jtypes.OptionalString) (string, error) {
+	if width > math.MaxInt32 || width < -math.MaxInt32 {
+		return "", errors.New("the width given to the pad function is out of range")
+	}
+	return jlib.Pad(s, width, chars), nil
 }
 
 func contextHandlerPad(argv []reflect.Value) bool {
